@@ -312,7 +312,11 @@ def _shipped_worker(args):
         except Exception as ex:  # a shipped database must load
             out.append((b, [], {}, [("LoaderRaised", type(ex).__name__, str(ex)[:200])]))
             continue
-        rows, info, hv = rows_for_gene(db, g, "shipped", rng, consumers=True, n_infer=6)
+        try:
+            rows, info, hv = rows_for_gene(db, g, "shipped", rng, consumers=True, n_infer=6)
+        except Exception as ex:  # an accessor of the loaded gene (lookup, maps, get_refseq, consumers) raised
+            import traceback
+            rows, info, hv = [], {}, [("AccessorRaised", type(ex).__name__, traceback.format_exc()[-400:])]
         out.append((b, rows, info, hv))
     return os.path.basename(path), out
 
@@ -337,7 +341,12 @@ def _generated_worker(args):
             g = gen_db.load(db, b)
         except Exception as ex:  # the generator must only produce loadable databases
             return idx, db, [(b, None, {}, [("GeneRaised", type(ex).__name__, str(ex)[:200])])]
-        rows, info, hv = rows_for_gene(db, g, f"gen{idx}", rng, consumers=True, n_infer=2)
+        try:
+            rows, info, hv = rows_for_gene(db, g, f"gen{idx}", rng, consumers=True, n_infer=2)
+        except Exception as ex:  # an accessor of the loaded gene (lookup, maps, get_refseq, consumers) raised
+            import traceback
+            out.append((b, [], {}, [("AccessorRaised", type(ex).__name__, traceback.format_exc()[-400:])]))
+            continue
         if small:
             rid = f"gen{idx}:{g.name}:{b}:maps"
             rows.append(maps_row(db, g, rid))
